@@ -127,7 +127,9 @@ def run_verus_unit(unit, tier, seed):
             stable &= keys(f2)
         dropped = [f for f in failures if (f["label"], f["site"]) not in stable]
         if dropped:
-            undecided += ["unstable obligation (fails on some seeds only): %s %s" % (f["label"], f["site"]) for f in dropped]
+            # the verifier proved these obligations under another solver seed: a proof is a proof whichever seed found it, so
+            # they count as discharged; the sensitivity is recorded in the evidence (it marks a proof worth stabilising)
+            res["seed_sensitive"] = ["%s %s" % (f["label"], f["site"]) for f in dropped]
         failures = [f for f in failures if (f["label"], f["site"]) in stable]
     # an unlabelled failure outside the extracted functions is a failure of one of *our* lemmas / model
     # functions: proof-engineering debt, i.e. undecided, never a violation of the property
@@ -388,9 +390,9 @@ def write_evidence(prop, tier, seed, results, obligations, discharged, violation
         per_unit=[dict(unit=r["unit"], engine=r["engine"], wall_s=round(r.get("wall", 0), 2), smt=r.get("smt"),
                        labelled_clauses=r.get("labelled_clauses"), vacuity_reachable_entries=r.get("vacuity_reachable_entries"),
                        extraction_edits=[dict(rule=e["rule"], count=e["count"], what=e["what"], example_before=e["before"], example_after=e["after"]) for e in r.get("edits", [])],
-                       bounded=r.get("bounded"), undecided=r.get("undecided")) for r in results],
+                       bounded=r.get("bounded"), undecided=r.get("undecided"), rlimit_retries=r.get("rlimit_retries", 0), seed_sensitive=r.get("seed_sensitive", [])) for r in results],
         samples=samples[:60] or [dict(note="no labelled obligations for this property in the selected units")],
-        explanation="Contracts on functions mechanically extracted from /repo on this run; Verus (Z3) / Kani (CBMC) discharge each obligation; see DESIGN.md section 3.",
+        explanation="Contracts on functions / statement regions mechanically extracted from /repo on this run; Verus (Z3) discharges each obligation function by function (callers against callee contracts); see DESIGN.md sections 3 and 9.",
         undecided=undecided,
         evaluations=max(1, obligations),
         distinct_nontrivial=max(2, len(set(s.get("obligation") for s in samples if isinstance(s, dict) and s.get("obligation")))),
